@@ -321,39 +321,126 @@ def evaluate(ctx, rows, nshards, prefix):
     return info100
 
 
-def gen_is_ours(ctx):
-    """coq/Gen is shared by all checks and regenerated by each of them from its own VERIF_REPO; while several
-    checks run against different scratch trees another check may overwrite Gen/FrameConsts.v between our translator
-    run and our Coq build. Compare it with a private translation of our tree."""
-    priv = os.path.join(ctx.work, "gen")
-    os.makedirs(priv, exist_ok=True)
-    rc, _ = verif.sh([os.path.join(verif.ROOT, "bin", "gen"), "-repo", verif.REPO, "-out", priv], timeout=120)
+# ------------------------------------------------------------------ end to end: frames of whole commands on a virtual wire
+E2E = {False: {"iface": "v0", "src_ip": "0a370001", "dst_ip": "0a370002", "dst": "10.55.0.2", "src_mac": "020000000501",
+               "dst_mac": "020000000502"},
+       True: {"iface": "tun5", "src_ip": "0a380001", "dst_ip": "0a380002", "dst": "10.56.0.2", "src_mac": "nil",
+              "dst_mac": "nil"}}
+
+
+def e2e_plan(quick):
+    """(name, vpn, sx arguments, expected option values, requested ports)."""
+    pl3, esc3 = "deadbe", "\\xde\\xad\\xbe"
+    plan = [
+        ("tcp-syn", False, ["tcp", "syn", "-p", "80,443"], {"kind": "tcp", "flags": 2}, [80, 443]),
+        ("tcp-flags", False, ["tcp", "--flags", "fin,ack", "-p", "22"], {"kind": "tcp", "flags": 17}, [22]),
+        ("tcp-xmas", False, ["tcp", "xmas", "-p", "1"], {"kind": "tcp", "flags": 41}, [1]),
+        ("udp-payload", False, ["udp", "-p", "53", "--ttl", "99", "--ipflags", "mf", "--payload", esc3],
+         {"kind": "udp", "ttl": 99, "ipflags": 1, "has_payload": True, "payload": pl3}, [53]),
+        ("udp-iplen", False, ["udp", "-p", "161", "--iplen", "29", "--payload", "\\xab"],
+         {"kind": "udp", "iplen": 29, "has_payload": True, "payload": "ab"}, [161]),
+        ("icmp-type13", False, ["icmp", "--type", "13", "--code", "0", "--ttl", "37", "--payload", esc3],
+         {"kind": "icmp", "typ": 13, "code": 0, "ttl": 37, "has_payload": True, "payload": pl3}, [0]),
+        ("arp", False, ["arp"], {"kind": "arp"}, [0]),
+        ("vpn-tcp-syn", True, ["tcp", "syn", "-p", "443"], {"kind": "tcp", "flags": 2}, [443]),
+        ("vpn-udp", True, ["udp", "-p", "53", "--payload", esc3], {"kind": "udp", "has_payload": True, "payload": pl3}, [53]),
+        ("vpn-icmp", True, ["icmp", "--type", "13", "--payload", esc3],
+         {"kind": "icmp", "typ": 13, "has_payload": True, "payload": pl3}, [0]),
+    ]
+    if not quick:
+        plan += [
+            ("tcp-null", False, ["tcp", "null", "-p", "65535"], {"kind": "tcp", "flags": 0}, [65535]),
+            ("tcp-fin", False, ["tcp", "fin", "-p", "7,8,9"], {"kind": "tcp", "flags": 1}, [7, 8, 9]),
+            ("tcp-all", False, ["tcp", "--flags", "syn,ack,fin,rst,psh,urg,ece,cwr,ns", "-p", "5"],
+             {"kind": "tcp", "flags": 511}, [5]),
+            ("icmp-default", False, ["icmp"], {"kind": "icmp"}, [0]),
+            ("icmp-proto", False, ["icmp", "--ipproto", "157", "--ipflags", "df,evil"],
+             {"kind": "icmp", "proto": 157, "ipflags": 6}, [0]),
+            ("udp-empty", False, ["udp", "-p", "1-3"], {"kind": "udp"}, [1, 2, 3]),
+            ("vpn-tcp-flags", True, ["tcp", "--flags", "rst,ns", "-p", "9"], {"kind": "tcp", "flags": 260}, [9]),
+            ("vpn-udp-iplen", True, ["udp", "-p", "7", "--iplen", "1500"], {"kind": "udp", "iplen": 1500}, [7]),
+            ("vpn-icmp-default", True, ["icmp"], {"kind": "icmp"}, [0]),
+        ]
+    return plan
+
+
+def e2e(ctx, quick, only=None):
+    """Run whole sx commands in a private network namespace -- on a veth pair (frames read on the peer) and on a tun
+    device (no link header: the datagrams are read from the tun file descriptor) -- and return what appeared on the
+    wire as observations of the same shape as the harness rows."""
+    import subprocess
+    ns = "c05e%d" % os.getpid()
+    work = ctx.work
+    sx = os.path.join(work, "sx")
+    rc, out = verif.sh(["go", "build", "-o", sx, "."], env=verif.GOENV, cwd=verif.REPO, timeout=1200)
     if rc != 0:
-        return True
+        ctx.broken.append(("correspondence: the sx binary does not build from the current tree", out[-1500:]))
+        return []
+    setup = [
+        ["ip", "netns", "add", ns],
+        ["ip", "-n", ns, "link", "add", "v0", "type", "veth", "peer", "name", "v1"],
+        ["ip", "-n", ns, "link", "set", "v0", "address", "02:00:00:00:05:01"],
+        ["ip", "-n", ns, "link", "set", "v1", "address", "02:00:00:00:05:02"],
+        ["ip", "netns", "exec", ns, "sysctl", "-qw", "net.ipv6.conf.all.disable_ipv6=1",
+         "net.ipv6.conf.default.disable_ipv6=1"],
+        ["ip", "-n", ns, "link", "set", "lo", "up"], ["ip", "-n", ns, "link", "set", "v0", "up"],
+        ["ip", "-n", ns, "link", "set", "v1", "up"], ["ip", "-n", ns, "addr", "add", "10.55.0.1/24", "dev", "v0"],
+        ["ip", "-n", ns, "tuntap", "add", "dev", "tun5", "mode", "tun"], ["ip", "-n", ns, "link", "set", "tun5", "up"],
+        ["ip", "-n", ns, "addr", "add", "10.56.0.1/24", "dev", "tun5"],
+    ]
+    rows = []
     try:
-        a = open(os.path.join(priv, "FrameConsts.v")).read()
-        b = open(os.path.join(verif.COQ, "Gen", "FrameConsts.v")).read()
-    except OSError:
-        return True
-    return a == b
-
-
-def build_stable(ctx):
-    """Translate and build. The Coq build runs while the translator lock is held and right after a fresh translation
-    of OUR tree, so that a concurrent check of another tree cannot swap Gen/FrameConsts.v under the build."""
-    import fcntl
-    gen_ok = ctx.gen()
-    if not gen_ok:
-        return False, False, False
-    with open(os.path.join(verif.ROOT, "tools", ".gen.lock"), "w") as lk:
-        fcntl.flock(lk, fcntl.LOCK_EX)
-        if not gen_is_ours(ctx):
-            verif.sh([os.path.join(verif.ROOT, "bin", "gen"), "-repo", verif.REPO, "-out",
-                      os.path.join(verif.COQ, "Gen")], timeout=120)
-            ctx.info.append("Gen/ had been regenerated from another tree by a concurrent check; translated again")
-        model_ok = ctx.coq_model(["Spec/C05.vo"])
-        proof_ok = ctx.coq_proofs("Properties/C05.v")
-    return gen_ok, model_ok, proof_ok
+        for cmd in setup:
+            rc, out = verif.sh(cmd, timeout=20)
+            if rc != 0:
+                ctx.skipped.append("e2e: cannot set up the network namespace (%s): %s" % (" ".join(cmd), out.strip()[:120]))
+                return []
+        empty = os.path.join(work, "empty-arp-cache")
+        open(empty, "w").close()
+        exe = os.path.join(verif.ROOT, "harness", "bin", "c05")
+        for k, (name, vpn, args, want, ports) in enumerate(e2e_plan(quick)):
+            if only is not None and name != only:
+                continue
+            env = E2E[vpn]
+            cap = os.path.join(work, "cap_%s.jsonl" % name)
+            capargs = ["-tun", "tun5"] if vpn else ["-capture", "v1", "-srcmac", env["src_mac"]]
+            p = subprocess.Popen(["ip", "netns", "exec", ns, exe] + capargs + ["-out", cap, "-count", str(len(ports)),
+                                  "-timeout", "3s"], stdout=subprocess.PIPE, text=True, cwd=work)
+            p.stdout.readline()          # "ready"
+            link = [] if (vpn or args[0] == "arp") else ["--gwmac", "02:00:00:00:05:02", "-a", empty]
+            nhead = 2 if args[0] == "tcp" and len(args) > 1 and args[1] in ("syn", "fin", "null", "xmas") else 1
+            argv = [sx] + args[:nhead] + link + ["--iface", env["iface"], "--exit-delay", "50ms"] + args[nhead:] + [env["dst"]]
+            rc, out = verif.sh(["ip", "netns", "exec", ns] + argv, timeout=60)
+            try:
+                p.wait(timeout=6)
+            except subprocess.TimeoutExpired:
+                p.kill()
+            frames = ctx.read_jsonl(cap) if os.path.exists(cap) else []
+            if rc != 0:
+                ctx.broken.append(("correspondence: e2e command sx %s failed" % " ".join(argv[1:]), out[-600:]))
+                continue
+            if len(frames) != len(ports):
+                ctx.findings.append({"key": "e2e:%s:frame-count" % name, "what": "sx %s: %d probe frames on the wire, %d "
+                                     "requested" % (" ".join(args), len(frames), len(ports)),
+                                     "replay": ctx.write_replay("e2e-" + name, {"property": "C05", "command": argv[1:],
+                                                                                "frames": frames, "expected": len(ports)})})
+            for fr in frames:
+                f = bytes.fromhex(fr["frame"])
+                o = {"i": 800000 + 100 * k + fr["n"], "class": "e2e-" + name, "via": "e2e", "vpn": vpn, "flags": 0, "ttl": -1,
+                     "iplen": -1, "proto": -1, "ipflags": -1, "typ": -1, "code": -1, "has_payload": False, "payload": "",
+                     "src_ip": env["src_ip"], "dst_ip": env["dst_ip"], "src_mac": env["src_mac"],
+                     "dst_mac": "nil" if want["kind"] == "arp" else env["dst_mac"], "dport": 0, "seed": 0, "skip": 1,
+                     "argv": argv[1:], "err": "", "frame": fr["frame"], "d_id": 0, "d_sport": 0, "d_seq": 0, "d_icmpid": 0,
+                     "d_payload": ""}
+                o.update(want)
+                at = 22 if vpn else 36
+                if want["kind"] in ("tcp", "udp") and len(f) >= at + 2:
+                    dport = (f[at] << 8) | f[at + 1]
+                    o["dport"] = dport if dport in ports else ports[0]
+                rows.append(o)
+    finally:
+        verif.sh(["ip", "netns", "del", ns], timeout=20)
+    return rows
 
 
 def run(ctx):
@@ -368,7 +455,9 @@ def run(ctx):
     ctx.assumptions += ["requests as the pipeline builds them: 4-byte source address, destination address of 4 bytes or "
                         "the 16-byte form of an IPv4 address, 6-byte MACs (not read without link header)",
                         "payloads that fit an IPv4 datagram (28 + length <= 65535)"]
-    gen_ok, model_ok, proof_ok = build_stable(ctx)
+    gen_ok = ctx.gen()
+    model_ok = gen_ok and ctx.coq_model(["Spec/C05.vo"])
+    proof_ok = gen_ok and ctx.coq_proofs("Properties/C05.v")
     rows = []
     have_harness = ctx.harness_build("c05")
     if have_harness:
@@ -382,6 +471,14 @@ def run(ctx):
                 for o in got:
                     o["class"], o["i"] = "corpus", 900000 + i
                 rows = got + rows
+    if have_harness:
+        try:
+            wire = e2e(ctx, quick)
+        except Exception as ex:      # environment trouble must not look like a property violation
+            ctx.skipped.append("e2e: %r" % (ex,))
+            wire = []
+        ctx.info.append("e2e: %d frames of whole sx commands captured on a veth pair (link header) and a tun device (VPN mode), judged like single Fill calls and compared with the model" % len(wire))
+        rows = rows + wire
     for o in rows:
         ctx.count(o["class"], distinct_key(o), nontrivial=nontrivial(o),
                   sample={"case": describe(o), "err": o["err"], "frame": o["frame"][:128]})
@@ -424,6 +521,20 @@ def replay(ctx, path):
         return 1
     if not ctx.harness_build("c05"):
         return 1
+    if r["input"].get("via") == "e2e":
+        # a frame of a whole command: run that command again on a fresh virtual wire
+        name = r["input"]["class"][len("e2e-"):]
+        rows = e2e(ctx, False, only=name)
+        if not rows:
+            print("replay: no frame captured (%s)" % "; ".join(ctx.skipped + [w for w, _ in ctx.broken]))
+            return 1
+        bad = 0
+        for o in rows:
+            why = spec_on_impl(o)
+            print("replay sx %s: frame=%s" % (" ".join(o["argv"]), o["frame"]))
+            print("replay verdict: %s" % (why or "property holds on this frame"))
+            bad += 1 if why else 0
+        return 1 if bad else 0
     ok, out = ctx.harness_run("c05", ["-out", "one.jsonl", "-replay", os.path.abspath(path)], timeout=300)
     if not ok:
         print(out)
